@@ -43,6 +43,8 @@ pub struct RunResult {
     pub sample: Option<serde_json::Value>,
     #[serde(default)]
     pub spec: Option<RunSpec>,
+    #[serde(default)]
+    pub wall_ms: u64,
 }
 
 impl RunResult {
@@ -103,7 +105,25 @@ pub fn panic_class(msg: &str) -> String {
 }
 
 pub fn generate(prop: &PropDef, tier: &str, seed: u64, index: u64) -> RunSpec {
-    let _ = (tier, index);
+    // C07 quantifies over schedules too: every fourth run audits published versions under the
+    // concurrent engine (structure oracle decisive, the rest observations)
+    if prop.id == "C07" && index % 4 == 3 {
+        return crate::conc::gen_conc(prop, seed, tier);
+    }
+    // C20 quantifies over crash points too: every fourth run is a journaled history whose crash
+    // images are recovered and whose directory must then equal the recovered version
+    if prop.id == "C20" && index % 4 == 3 {
+        let mut p = (prop.profile)();
+        p.min_ops = 4;
+        p.max_ops = 22;
+        p.blob_ingest = false;
+        let mut s = crate::gen::gen_run(prop.id, seed, &p);
+        s.ops.retain(|o| !matches!(o, Op::SnapOpen | Op::SnapClose { .. } | Op::Scan { .. } | Op::Prefix { .. }));
+        let mut plan = crate::crash::default_plan("quick");
+        plan.sample_positions = 6;
+        s.extra = serde_json::to_value(plan).unwrap();
+        return s;
+    }
     match prop.engine {
         EngineKind::Crash => {
             let mut p = (prop.profile)();
@@ -196,6 +216,11 @@ pub fn finish_result(
 /// Executes one spec (inside the run child).
 pub fn run_spec(prop: &PropDef, spec: &RunSpec, workdir: &Path, index: u64) -> RunResult {
     install_panic_hook();
+    match spec.extra.get("engine").and_then(|e| e.as_str()) {
+        Some("conc") => return crate::conc::run_conc(prop, spec, workdir, index),
+        Some("crash") => return crate::crash::run_crash(prop, spec, workdir, index),
+        _ => {}
+    }
     match prop.engine {
         EngineKind::Seq => run_seq(prop, spec, workdir, index),
         EngineKind::Crash => crate::crash::run_crash(prop, spec, workdir, index),
